@@ -401,9 +401,30 @@ class StmtMixin:
         name = "%s.loop[%d]" % (self.loop_owner(), n)
         self.entry_stack.append((dict(env), {k: h.copy() for k, h in st.heap.items()}))
         try:
-            for i, b in enumerate(self.inv_holds(spec, env, st)):
-                self.oblige("%s.init[%d]" % (name, i), st, b, kind="loop-init")
             res = []
+            if spec.peel:
+                # the loop is entered (obligation); the first iteration runs
+                # from the entry state; the invariant must hold after it
+                heads = []
+                for (sg, g) in self.ev_cond(stmt.test, env, st.fork()):
+                    self.oblige("%s.entered" % name, sg, g, kind="loop-init")
+                    sg.assume(g)
+                    for (e2, s2, sig, v) in self.exec_block(stmt.body, dict(env), sg):
+                        if sig in ("fall", "continue"):
+                            for i, b in enumerate(self.inv_holds(spec, e2, s2)):
+                                self.oblige("%s.init[%d]" % (name, i), s2, b,
+                                            kind="loop-init")
+                            heads.append((e2, s2))
+                        elif sig == "break":
+                            res.append((e2, s2, "fall", None))
+                        else:
+                            res.append((e2, s2, sig, v))
+                if not heads:
+                    return res
+                env, st = heads[0][0], heads[0][1]
+            else:
+                for i, b in enumerate(self.inv_holds(spec, env, st)):
+                    self.oblige("%s.init[%d]" % (name, i), st, b, kind="loop-init")
             # --- arbitrary iteration
             en = dict(env)
             s = st.fork()
